@@ -282,6 +282,40 @@ def _run(ix, R):
                 'array profile: the array itself when it has nlayers entries, else interpolation onto nlayers points '
                 '(ascending abscissae), else the log10-pressure interpolant',
                 not why, key='; '.join(why), detail='; '.join(why), loc=f.loc())
+    site = TD + 'temparray.py::TemperatureArray.__init__'
+    with R.guard('3.array.interp', 'ALG', site, 'array interpolant'):
+        # with pressure points: linear in log10(P) between the tabulated points and HELD at the end values outside
+        # them (fill_value = (last, first) temperature for pressures below / above the table) - never extrapolated,
+        # which would leave the range of the control temperatures (and can go negative)
+        f = ix.func(site)
+        fl = mkflow(ix, site, forward_attrs=True)
+        ic = [e for e in calls(fl, 'interp1d')]
+        stmt = ('with pressure points the profile is interp1d(log10(p), T) inside the table and the nearest end value '
+                'outside it (no extrapolation, no error)')
+        if len(ic) != 1:
+            R.error('3.array.interp', 'ALG', site, stmt, '%d interp1d calls' % len(ic), loc=f.loc())
+        else:
+            e = ic[0]
+            why = []
+            fv = e.kw.get('fill_value')
+            be = e.kw.get('bounds_error')
+            tp = e.args[1] if len(e.args) > 1 else None
+            if fv is None or be is None or tp is None:
+                why.append('interp1d(%s) without bounds_error=False and fill_value' % ', '.join(sorted(e.kw)))
+            else:
+                if fmt(fl, be) != 'False':
+                    why.append('bounds_error=%s' % fmt(fl, be))
+                want_fv = fl.tab.atom('tuple', (fl.tab.atom('idx', (tp, fl.tab.const(-1))), fl.tab.atom('idx', (tp, fl.tab.const(0)))))
+                if 'extrapolate' in fmt(fl, fv):
+                    why.append("fill_value='extrapolate': outside the tabulated pressures the temperature is extrapolated "
+                               'linearly without bound')
+                elif not fl.tab.equal(fv, want_fv):
+                    why.append('fill_value=%s (expected the last and first tabulated temperature)' % fmt(fl, fv)[:120])
+                if not fl.tab.equal(e.args[0], fl.tab.log('log10', code(fl, 'self._p_profile'))) and \
+                        'log10' not in fmt(fl, e.args[0]):
+                    why.append('abscissa is %s, not log10 of the pressure points' % fmt(fl, e.args[0])[:80])
+            R.check('3.array.interp', 'ALG', site, stmt, not why, key='; '.join(w[:80] for w in why), detail='; '.join(why),
+                    loc=f.loc(e.node))
     # rodgers
     site = TD + 'rodgers.py::Rodgers2000.gen_covariance'
     with R.guard('3.rodgers.cov', 'ALG', site, 'covariance'):
